@@ -61,6 +61,8 @@ pub enum TypeErrorEnum {
     MissingStructField(String, String),
     /// The struct constructor or pattern names the specified field more than once.
     DuplicateStructField(String, String),
+    /// The enum declaration names the specified variant more than once.
+    DuplicateEnumVariant(String, String),
     /// No enum declaration with the specified name exists.
     UnknownEnum(String, String),
     /// The enum exists, but no variant declaration with the specified name was found.
@@ -172,6 +174,9 @@ impl std::fmt::Display for TypeErrorEnum {
             TypeErrorEnum::TupleAccessOutOfBounds(size) => {
                 f.write_fmt(format_args!("The tuple only has {size} fields"))
             }
+            TypeErrorEnum::DuplicateEnumVariant(enum_name, variant_name) => f.write_fmt(format_args!(
+                "Enum '{enum_name}' declares the variant '{variant_name}' more than once"
+            )),
             TypeErrorEnum::DuplicateFnParam(name) => f.write_fmt(format_args!(
                 "The function parameter '{name}' is declared multiple times"
             )),
@@ -559,7 +564,12 @@ impl UntypedProgram {
         for (enum_name, enum_def) in self.enum_defs.iter() {
             let meta = enum_def.meta;
             let mut variants = Vec::with_capacity(enum_def.variants.len());
-            for variant in enum_def.variants.iter() {
+            for (i, variant) in enum_def.variants.iter().enumerate() {
+                let name = variant.variant_name();
+                if enum_def.variants[..i].iter().any(|v| v.variant_name() == name) {
+                    let e = TypeErrorEnum::DuplicateEnumVariant(enum_name.clone(), name.to_string());
+                    errors.push(Some(TypeError::new(e, meta)));
+                }
                 variants.push(match variant {
                     Variant::Unit(variant_name) => Variant::Unit(variant_name.clone()),
                     Variant::Tuple(variant_name, variant_fields) => {
